@@ -24,7 +24,9 @@ def spell(rng, v, kinds=None):
     opts = ["dec-str", "hex-str"]
     if v <= 2 ** 64 - 1:
         opts += ["int", "int"]
-    if v < 2 ** 53:
+    if v < 10 ** 15:
+        # float spellings only where every IEEE conversion is exact (<= 15 digits); longer float
+        # literals hit the known finding C13/float-literal-rounding and are exercised by c13.py only
         opts += ["float.0", "float-e"]
     k = rng.choice(kinds or opts)
     if k == "int":
